@@ -559,8 +559,8 @@ LEVEL_TEXT = ("Machine-checked Coq theorems over an executable LTS copy of the f
               "handler has returned, every earlier response was received and the result is EOF for nil or matches the "
               "handler's error, and it repeats (C14_terminal_result, C14_terminal_sticky, C14_error_matches_on_every_transport, "
               "C14_registry_roundtrip); handler end-of-stream only after CloseSend and after every request, and Receive "
-              "commutes with CloseSend (C14_closesend_eof, C14_closesend_keeps_receive); the mock refines the documented "
-              "contract. The model is tied to /repo on every run by trace inclusion: the real mock, websocket (json, msgpack) "
+              "commutes with CloseSend (C14_closesend_eof, C14_closesend_keeps_receive); the mock, websocket and gRPC client "
+              "profiles refine the documented contract. The model is tied to /repo on every run by trace inclusion: the real mock, websocket (json, msgpack) "
               "and gRPC (external, internal) transports are driven through generated client/handler scripts and their per-side "
               "observations must be accepted by the checker `accepts`, which is proved to accept exactly the projections of "
               "LTS traces (C14_accepts_sound / C14_accepts_complete) and to imply the decidable monitor ok_C14 that is also "
@@ -570,7 +570,7 @@ LEVEL_NOTE = ("partial: timing — only schedules the Go scheduler produced unde
               "bounded mock buffers and use of a ServerStream after its handler returned are outside the model. Trusted: Coq "
               "kernel/vm_compute; hand-written model tied by correspondence; regex translator for the provider tables (fails "
               "closed); harness classification of errors by stdlib errors.Is; the cockroachdb codec on internal transports is "
-              "tabulated, not modelled. websocket/gRPC are checked against the contract profile (mock against the exact one). "
+              "tabulated, not modelled. mock, websocket and gRPC are each checked against their own exact profile of Send/CloseSend results; all three are proved to refine the documented contract. "
               "All theorems closed under the global context. Found and fixed by this check: F16 (Payload.Unmarshal split at "
               "every '---': registered errors lost their type over gRPC), F17 (websocket client panicked on a second Receive "
               "after the terminal result).")
